@@ -18,6 +18,13 @@ Theorem C12_leaf_merge : forall l, merge_src l = merge l.
 Proof. exact merge_agree. Qed.
 Print Assumptions C12_leaf_merge.
 
+(* ... and the final issubclass fallback of typeorder (two classes, no hooks, no generic aliases) is the expression of
+   the model's tord_body: SAME when each is a subclass of the other, LESS / MORE by the one-directional test, else NONE *)
+Theorem C12_leaf_tail : forall s12 s21,
+  cls_tail_src s12 s21 = (if s12 && s21 then SAME else if s12 then LESS else if s21 then MORE else NONE).
+Proof. exact cls_tail_agree. Qed.
+Print Assumptions C12_leaf_tail.
+
 (* typeorder is total on the modelled closure: the fuel it is given always suffices (so the "= Some r" hypotheses below
    are never vacuous) *)
 Theorem C12_total : forall sub hasm chk fresh t1 t2, typeorder sub hasm chk fresh t1 t2 <> None.
